@@ -95,3 +95,18 @@ def run(rep, tier):
     for p in progs[:2]:
         rep.sample({"lane": "L7", "program": sast.program(p)})
     run_programs(rep, progs, "L7")
+
+
+def untyped(outs):
+    """strip hidden element types / declared cell types from `ok VALUE :: TYPE` lines"""
+    idx, qs = [], []
+    for k, o in enumerate(outs):
+        o = norm_impl(o)
+        if o.startswith("ok "):
+            idx.append(k)
+            qs.append("(untyped " + o[3:].split(" :: ")[0] + ")")
+    ans = common.run_cases(common.DRIVER, qs, env={"VERIF_HELPERS": HELPERS}) if qs else []
+    res = [norm_impl(o).split(" :: ")[0] for o in outs]
+    for k, a in zip(idx, ans):
+        res[k] = "ok " + a
+    return res
